@@ -388,8 +388,22 @@ def check_gtf_duplicates(gtf):
                     gtf_correct = False
                 exons.append(exon)
 
+        # gffutils cuts key and value at the FIRST blank: for `gene_id  "G1";` it reads the id ` "G1"` (blank and quotes
+        # included), i.e. another gene / transcript than this check does; the corrected annotation has a single blank
+        padding = set()
+        for value_pos in [gene_id_pos] + ([transcript_id_pos] if feature_type != "gene" else []):
+            j = value_pos - 1
+            while j > 0 and attrs[j] == "":
+                padding.add(j)
+                j -= 1
+        if padding:
+            logger.warning("Several blanks between gene_id / transcript_id and its value on line %d" % line_count)
+            gtf_correct = False
+
         new_attrs = []
         for i in range(len(attrs)):
+            if i in padding:
+                continue
             if i == gene_id_pos:
                 new_attrs.append('"%s";' % gene_id)
             elif feature_type != "gene" and i == transcript_id_pos:
